@@ -94,29 +94,29 @@ Section AsciiFacts.
 
   Let T := ascii_table c Hc.
 
+  Ltac split_table H :=
+    unfold ascii_table_ok in H;
+    repeat match type of H with
+           | (_ && _) = true => let H' := fresh "Hconj" in apply andb_true_iff in H; destruct H as [H H']
+           end.
+
   Lemma ascii_isspace : c_isspace c = ascii_space c.
-  Proof. pose proof T as H. unfold ascii_table_ok in H. rewrite !andb_true_iff in H.
-         apply eqb_prop. tauto. Qed.
+  Proof. pose proof T as H. split_table H. apply eqb_prop. assumption. Qed.
   Lemma ascii_isdigit : c_isdigit c = a_digit c.
-  Proof. pose proof T as H. unfold ascii_table_ok in H. rewrite !andb_true_iff in H.
-         apply eqb_prop. tauto. Qed.
+  Proof. pose proof T as H. split_table H. apply eqb_prop. assumption. Qed.
   Lemma ascii_isdecimal : c_isdecimal c = a_digit c.
-  Proof. pose proof T as H. unfold ascii_table_ok in H. rewrite !andb_true_iff in H.
-         apply eqb_prop. tauto. Qed.
+  Proof. pose proof T as H. split_table H. apply eqb_prop. assumption. Qed.
   Lemma ascii_isalnum : c_isalnum c = a_digit c || a_letter c.
-  Proof. pose proof T as H. unfold ascii_table_ok in H. rewrite !andb_true_iff in H.
-         apply eqb_prop. tauto. Qed.
+  Proof. pose proof T as H. split_table H. apply eqb_prop. assumption. Qed.
   Lemma ascii_is_ascii : c_is_ascii c = true.
   Proof. unfold c_is_ascii. apply N.ltb_lt. exact Hc. Qed.
   Lemma ascii_lower : c_lower c = [a_fold c].
-  Proof. pose proof T as H. unfold ascii_table_ok in H. rewrite !andb_true_iff in H.
-         apply s_eqb_eq. tauto. Qed.
+  Proof. pose proof T as H. split_table H. apply s_eqb_eq. assumption. Qed.
   Lemma ascii_capfirst : c_capfirst c = [a_capfirst c].
-  Proof. pose proof T as H. unfold ascii_table_ok in H. rewrite !andb_true_iff in H.
-         apply s_eqb_eq. tauto. Qed.
+  Proof. pose proof T as H. split_table H. apply s_eqb_eq. assumption. Qed.
   Lemma ascii_decimal_value : c_decimal_value c = if a_digit c then Some (c - 48)%N else None.
-  Proof. pose proof T as H. unfold ascii_table_ok in H. rewrite !andb_true_iff in H.
-         destruct H as [_ H]. destruct (c_decimal_value c) as [d|].
+  Proof. pose proof T as H. split_table H. clear H. rename Hconj into H.
+         destruct (c_decimal_value c) as [d|].
          - apply andb_true_iff in H. destruct H as [H1 H2]. rewrite H1. apply N.eqb_eq in H2. congruence.
          - apply negb_true_iff in H. rewrite H. reflexivity. Qed.
 End AsciiFacts.
@@ -216,15 +216,22 @@ Proof.
   f_equal. apply IH. intros x Hx. apply H. right. exact Hx.
 Qed.
 
+Lemma replace_first_unfold old new s :
+  s_replace_first old new s =
+  match s_prefix old s with
+  | Some rest => new ++ rest
+  | None => match s with [] => [] | c :: r => c :: s_replace_first old new r end
+  end.
+Proof. destruct s; reflexivity. Qed.
+
 Lemma replace_first_once : forall d a new p r, (forall c, In c p -> c <> d) ->
   s_replace_first (d :: a) new (p ++ (d :: a) ++ r) = p ++ new ++ r.
 Proof.
   intros d a new. induction p as [|c p IH]; intros r H.
-  - cbn [app]. change (d :: a ++ r) with ((d :: a) ++ r).
-    destruct r as [|x r]; cbn [s_replace_first]; rewrite ?s_prefix_app.
-    + destruct ((d :: a) ++ []) eqn:E; rewrite <- ?E, s_prefix_app; reflexivity.
-    + destruct ((d :: a) ++ x :: r) eqn:E; rewrite <- ?E, s_prefix_app; reflexivity.
-  - cbn [app s_replace_first]. rewrite s_prefix_head_neq by (apply H; left; reflexivity).
+  - cbn [app]. rewrite replace_first_unfold.
+    change (d :: a ++ r) with ((d :: a) ++ r). rewrite s_prefix_app. reflexivity.
+  - rewrite <- !app_comm_cons. rewrite replace_first_unfold.
+    rewrite s_prefix_head_neq by (apply H; left; reflexivity).
     f_equal. apply IH. intros x Hx. apply H. right. exact Hx.
 Qed.
 
@@ -245,10 +252,9 @@ Lemma split_fuel_once : forall d a p q f cur,
   s_split_on_fuel f (d :: a) cur (p ++ (d :: a) ++ q) = [rev cur ++ p; q].
 Proof.
   intros d a. induction p as [|c p IH]; intros q f cur Hp Hq Hf.
-  - destruct f as [|f]; [inversion Hf|]. cbn [app]. change (d :: a ++ q) with ((d :: a) ++ q).
-    cbn [s_split_on_fuel]. destruct ((d :: a) ++ q) eqn:E; [discriminate|]. rewrite <- E.
-    rewrite s_prefix_app. rewrite split_fuel_absent by exact Hq. rewrite app_nil_r. reflexivity.
   - destruct f as [|f]; [inversion Hf|]. cbn [app s_split_on_fuel].
+    change (d :: a ++ q) with ((d :: a) ++ q). rewrite s_prefix_app. rewrite split_fuel_absent by exact Hq. rewrite app_nil_r. reflexivity.
+  - destruct f as [|f]; [inversion Hf|]. rewrite <- app_comm_cons. cbn [s_split_on_fuel].
     rewrite s_prefix_head_neq by (apply Hp; left; reflexivity).
     rewrite IH; [| intros x Hx; apply Hp; right; exact Hx | exact Hq | cbn in Hf; lia].
     cbn [rev]. rewrite <- app_assoc. reflexivity.
@@ -287,9 +293,9 @@ Lemma all_digits_In p c : all_digits p = true -> In c p -> a_digit c = true.
 Proof. apply forallb_In. Qed.
 
 Lemma filter_digits_letters p : all_letters p = true -> s_filter_digits p = [].
-Proof. intros H. apply filter_all_false. intros c Hc. apply letter_isdigit. eapply all_letters_In; eauto. Qed.
+Proof. intros H. apply filter_all_false. intros c Hc. apply letter_isdigit. exact (all_letters_In p c H Hc). Qed.
 Lemma filter_digits_digits a : all_digits a = true -> s_filter_digits a = a.
-Proof. intros H. apply filter_all_true. intros c Hc. apply digit_isdigit. eapply all_digits_In; eauto. Qed.
+Proof. intros H. apply filter_all_true. intros c Hc. apply digit_isdigit. exact (all_digits_In a c H Hc). Qed.
 
 Lemma filter_digits_pAq p a q : all_letters p = true -> all_digits a = true -> all_letters q = true ->
   s_filter_digits (p ++ a ++ q) = a.
@@ -308,9 +314,9 @@ Proof.
   - apply app_eq_nil in E. destruct E as [_ E]. apply app_eq_nil in E. tauto.
   - rewrite <- E. apply forallb_forall. intros c Hc. rewrite !in_app_iff in Hc.
     destruct Hc as [Hc|[Hc|Hc]].
-    + apply letter_isalnum. eapply all_letters_In; eauto.
-    + apply digit_isalnum. eapply all_digits_In; eauto.
-    + apply letter_isalnum. eapply all_letters_In; eauto.
+    + apply letter_isalnum. exact (all_letters_In p c Hp Hc).
+    + apply digit_isalnum. exact (all_digits_In a c Ha Hc).
+    + apply letter_isalnum. exact (all_letters_In q c Hq Hc).
 Qed.
 
 Lemma isascii_pAq p a q : all_letters p = true -> all_digits a = true -> all_letters q = true ->
@@ -318,9 +324,9 @@ Lemma isascii_pAq p a q : all_letters p = true -> all_digits a = true -> all_let
 Proof.
   intros Hp Ha Hq. unfold s_isascii. apply forallb_forall. intros c Hc. rewrite !in_app_iff in Hc.
   destruct Hc as [Hc|[Hc|Hc]].
-  - apply letter_is_ascii. eapply all_letters_In; eauto.
-  - apply digit_is_ascii. eapply all_digits_In; eauto.
-  - apply letter_is_ascii. eapply all_letters_In; eauto.
+  - apply letter_is_ascii. exact (all_letters_In p c Hp Hc).
+  - apply digit_is_ascii. exact (all_digits_In a c Ha Hc).
+  - apply letter_is_ascii. exact (all_letters_In q c Hq Hc).
 Qed.
 
 (* ------------------------------------------------------------------ int(str) *)
@@ -363,7 +369,7 @@ Lemma s_int_digits A : all_digits A = true -> A <> [] -> (length A <= 4300)%nat 
   s_int A = OK (dvalue A).
 Proof.
   intros Hd Hne Hlen. unfold s_int. destruct A as [|a A']; [congruence|].
-  rewrite existsb_all_false by (intros c Hc; apply digit_int_special; eapply all_digits_In; eauto).
+  rewrite existsb_all_false by (intros c Hc; apply digit_int_special; exact (all_digits_In _ c Hd Hc)).
   rewrite digits_value_fold by exact Hd.
   replace (Nat.ltb 4300 (length (a :: A'))) with false by (symmetry; apply Nat.ltb_ge; exact Hlen).
   reflexivity.
@@ -415,4 +421,167 @@ Proof.
   intros a b H. unfold case_variants. apply filter_In. split.
   - apply same_fold_variants. exact H.
   - apply s_eqb_eq. exact H.
+Qed.
+
+(* ------------------------------------------------------------------ token strings have no whitespace *)
+Definition tokc (c : N) : bool := a_digit c || a_letter c || N.eqb c 45.
+Definition all_tok (s : str) : bool := forallb tokc s.
+
+Lemma tokc_isspace c : tokc c = true -> c_isspace c = false.
+Proof.
+  intros H. assert (Hc : (c < 128)%N).
+  { unfold tokc in H. rewrite !orb_true_iff in H. destruct H as [[H|H]|H].
+    - apply a_digit_lt128; exact H.
+    - apply a_letter_lt128; exact H.
+    - apply N.eqb_eq in H. lia. }
+  rewrite ascii_isspace by exact Hc. apply ascii_space_false. exact H.
+Qed.
+
+Lemma all_tok_app a b : all_tok (a ++ b) = all_tok a && all_tok b.
+Proof. apply forallb_app. Qed.
+Lemma all_tok_letters p : all_letters p = true -> all_tok p = true.
+Proof.
+  intros H. apply forallb_forall. intros c Hc. unfold tokc.
+  rewrite (all_letters_In p c H Hc). rewrite orb_true_r. reflexivity.
+Qed.
+Lemma all_tok_digits p : all_digits p = true -> all_tok p = true.
+Proof.
+  intros H. apply forallb_forall. intros c Hc. unfold tokc.
+  rewrite (all_digits_In p c H Hc). reflexivity.
+Qed.
+Lemma all_tok_hyphen : all_tok hyphen = true.
+Proof. reflexivity. Qed.
+
+Lemma remove_ws_tok s : all_tok s = true -> s_remove_ws s = s.
+Proof. intros H. apply remove_ws_id. intros c Hc. apply tokc_isspace. exact (forallb_In _ _ _ H Hc). Qed.
+
+(* ------------------------------------------------------------------ digit strings of length 1..3 *)
+Definition drange : list N := map N.of_nat (seq 48 10).     (* '0'..'9' *)
+Definition nzrange : list N := map N.of_nat (seq 49 9).     (* '1'..'9' *)
+Definition digit_strings : list str :=
+  map (fun a => [a]) nzrange
+  ++ flat_map (fun a => map (fun b => [a; b]) drange) nzrange
+  ++ flat_map (fun a => flat_map (fun b => map (fun c => [a; b; c]) drange) drange) nzrange.
+
+Lemma in_drange c : a_digit c = true -> In c drange.
+Proof.
+  unfold a_digit. rewrite andb_true_iff, !N.leb_le. intros H. unfold drange.
+  rewrite <- (N2Nat.id c). apply in_map. apply in_seq. lia.
+Qed.
+Lemma in_nzrange c : a_digit c = true -> negb (N.eqb c 48) = true -> In c nzrange.
+Proof.
+  unfold a_digit. rewrite andb_true_iff, !N.leb_le, negb_true_iff, N.eqb_neq. intros H Hz. unfold nzrange.
+  rewrite <- (N2Nat.id c). apply in_map. apply in_seq. lia.
+Qed.
+
+Lemma in_digit_strings A : all_digits A = true ->
+  (match A with c :: _ => negb (N.eqb c 48) | [] => false end) = true ->
+  (dvalue A <= 999)%Z -> In A digit_strings.
+Proof.
+  intros Hd Hz Hv. pose proof (digits_len3 A Hd Hz Hv) as Hl.
+  destruct A as [|a [|b [|c [|d r]]]]; cbn [length] in Hl; try lia; clear Hl Hv;
+    cbn in Hd; rewrite ?andb_true_iff in Hd; unfold digit_strings; rewrite !in_app_iff.
+  - destruct Hd as [Ha _].
+    left. apply (in_map (fun a0 => [a0])). apply in_nzrange; assumption.
+  - destruct Hd as (Ha & Hb & _).
+    right; left. apply in_flat_map. exists a. split; [apply in_nzrange; assumption|].
+    apply (in_map (fun b0 => [a; b0])). apply in_drange; assumption.
+  - destruct Hd as (Ha & Hb & Hc & _).
+    right; right. apply in_flat_map. exists a. split; [apply in_nzrange; assumption|].
+    apply in_flat_map. exists b. split; [apply in_drange; assumption|].
+    apply (in_map (fun c0 => [a; b; c0])). apply in_drange; assumption.
+Qed.
+
+(* ------------------------------------------------------------------ s.strip(chars) on digits ++ state *)
+Lemma strip_keep_prefix chars A st : A <> [] ->
+  (forall c, In c A -> c_in c chars = false) -> (forall c, In c st -> c_in c chars = true) ->
+  s_strip chars (A ++ st) = A.
+Proof.
+  intros Hne HA Hst. unfold s_strip.
+  assert (E1 : s_lstrip chars (A ++ st) = A ++ st).
+  { destruct A as [|a A']; [congruence|]. rewrite <- app_comm_cons. apply lstrip_head_out.
+    apply HA. left. reflexivity. }
+  rewrite E1, rev_app_distr.
+  rewrite lstrip_all_in.
+  - apply rev_involutive.
+  - intros c Hc. apply Hst. apply in_rev. exact Hc.
+  - destruct (rev A) as [|c r] eqn:E; [reflexivity|]. apply negb_true_iff. apply HA.
+    apply in_rev. rewrite E. left. reflexivity.
+Qed.
+
+Lemma strip_keep_suffix chars A st :
+  (forall c, In c A -> c_in c chars = true) -> (forall c, In c st -> c_in c chars = false) ->
+  s_strip chars (A ++ st) = st.
+Proof.
+  intros HA Hst. unfold s_strip.
+  assert (Hhead : forall l : str, (forall c, In c l -> c_in c chars = false) ->
+                  (match l with [] => true | c :: _ => negb (c_in c chars) end) = true).
+  { intros l Hl. destruct l as [|c r]; [reflexivity|]. apply negb_true_iff. apply Hl. left. reflexivity. }
+  rewrite lstrip_all_in; [| exact HA | apply Hhead; exact Hst].
+  change (rev st) with ([] ++ rev st) at 1. rewrite (lstrip_all_in chars [] (rev st)).
+  - apply rev_involutive.
+  - intros c [].
+  - apply Hhead. intros c Hc. apply Hst. apply in_rev. exact Hc.
+Qed.
+
+Lemma digits_notin chars : forallb (fun c => negb (c_in c chars)) drange = true ->
+  forall A, all_digits A = true -> forall c, In c A -> c_in c chars = false.
+Proof.
+  intros H A HA c Hc. apply negb_true_iff.
+  apply (forallb_In _ _ _ H). apply in_drange. exact (all_digits_In A c HA Hc).
+Qed.
+
+Lemma digits_in chars : forallb (fun c => c_in c chars) drange = true ->
+  forall A, all_digits A = true -> forall c, In c A -> c_in c chars = true.
+Proof.
+  intros H A HA c Hc. apply (forallb_In _ _ _ H). apply in_drange. exact (all_digits_In A c HA Hc).
+Qed.
+
+(* ------------------------------------------------------------------ int(a / b) *)
+Lemma int_truediv_exact a b q r :
+  (a = q * b + r)%Z -> (0 <= r < b)%Z -> (b <= 10000)%Z -> (0 <= q)%Z -> (a < 9007199254740992)%Z ->
+  int_truediv a b = OK q.
+Proof.
+  intros Ha Hr Hb Hq Hlt. unfold int_truediv.
+  assert (0 <= a)%Z by nia.
+  replace (b =? 0)%Z with false by (symmetry; apply Z.eqb_neq; lia).
+  replace (Z.abs a <? 9007199254740992)%Z with true by (symmetry; apply Z.ltb_lt; lia).
+  replace (0 <? b)%Z with true by (symmetry; apply Z.ltb_lt; lia).
+  replace (b <=? 10000)%Z with true by (symmetry; apply Z.leb_le; lia).
+  cbn [andb]. f_equal. rewrite Z.quot_div_nonneg by lia. symmetry.
+  apply (Z.div_unique a b q r); lia.
+Qed.
+
+(* ------------------------------------------------------------------ str(int(A)) = A *)
+Lemma s_of_int_dvalue : forall A, In A digit_strings -> s_of_int (dvalue A) = A.
+Proof.
+  intros A HA. apply s_eqb_eq. revert A HA. apply forallb_forall. vm_compute. reflexivity.
+Qed.
+
+Lemma digit_strings_range : forall A, In A digit_strings -> (1 <= dvalue A <= 999)%Z.
+Proof.
+  intros A HA.
+  assert (H : ((1 <=? dvalue A) && (dvalue A <=? 999))%Z = true).
+  { revert A HA. apply forallb_forall. vm_compute. reflexivity. }
+  apply andb_true_iff in H. rewrite !Z.leb_le in H. exact H.
+Qed.
+
+(* ------------------------------------------------------------------ nested finite quantification *)
+Lemma forallb2_In {A B} (la : list A) (fb : A -> list B) (P : A -> B -> bool) :
+  forallb (fun a => forallb (fun b => P a b) (fb a)) la = true ->
+  forall a b, In a la -> In b (fb a) -> P a b = true.
+Proof.
+  intros H a b Ha Hb. pose proof (forallb_In _ _ _ H Ha) as H1. cbv beta in H1.
+  exact (forallb_In _ _ _ H1 Hb).
+Qed.
+
+Lemma forallb4_In {A B C D} (la : list A) (fb : A -> list B) (lc : list C) (fd : C -> list D)
+      (P : A -> B -> C -> D -> bool) :
+  forallb (fun a => forallb (fun b => forallb (fun c => forallb (fun d => P a b c d) (fd c)) lc) (fb a)) la = true ->
+  forall a b c d, In a la -> In b (fb a) -> In c lc -> In d (fd c) -> P a b c d = true.
+Proof.
+  intros H a b c d Ha Hb Hc Hd.
+  pose proof (forallb2_In la fb (fun a b => forallb (fun c => forallb (fun d => P a b c d) (fd c)) lc) H a b Ha Hb) as H1.
+  cbv beta in H1.
+  exact (forallb2_In lc fd (fun c d => P a b c d) H1 c d Hc Hd).
 Qed.
